@@ -333,8 +333,11 @@ def solve(a, b):
 # --------------------------------------------------------------------------- function shims
 
 def _entry_eq(x, y):
-    r = (tosym(x) == tosym(y))
-    return r
+    a, b = tosym(x), tosym(y)
+    if a is NotImplemented or b is NotImplemented:
+        # numpy itself raises on entries it cannot compare numerically (e.g. sympy expressions)
+        raise TypeError("cannot determine truth value of a comparison with a non-numeric entry")
+    return a == b
 
 
 def allclose(a, b, rtol=None, atol=None, equal_nan=False):
